@@ -140,6 +140,13 @@ def line_part(chk, tier):
                 offs.append(o)
                 o += len(rr.sym_bytes(l)) + len(term)
             files[name] = (sc.write("in_" + name, term.join(rr.sym_bytes(l) for l in lines) + term), offs, term)
+        # the catalogue with a CR at the end of every line, LF-terminated: a CRLF file searched WITHOUT --crlf (the CR is content)
+        lines_cr = [list(l) + [13] for l in lines]
+        offs, o = [], 0
+        for l in lines_cr:
+            offs.append(o)
+            o += len(rr.sym_bytes(l)) + 1
+        files["cr"] = (sc.write("in_cr", b"\n".join(rr.sym_bytes(l) for l in lines_cr) + b"\n"), offs, b"\n")
         base = ["--no-config", "--color", "never", "-j1"]
         jobs, meta = [], []
         for i, r in enumerate(recs):
@@ -150,7 +157,14 @@ def line_part(chk, tier):
                 variants += ["heading", "null", "withname"]
             if r["o"]["crlf"]:
                 variants += ["plain_lf", "context_lf"]     # --crlf on a file whose lines end in a bare LF
+            if r.get("crlines") and (i + vlib.seed()) % 2 == 0:
+                variants += ["plain_cr", "json_cr"]
             for v in variants:
+                if v in ("plain_cr", "json_cr"):
+                    a = ["--json"] if v == "json_cr" else ["-n", "-b", "--no-heading"] + ([] if r["o"]["inv"] else ["--column"])
+                    jobs.append({"args": base + a + pa + [files["cr"][0]]})
+                    meta.append((i, v))
+                    continue
                 if v in ("plain_lf", "context_lf"):
                     a = ["-n", "-b", "--no-heading"] + (["-C1"] if v == "context_lf" else ([] if r["o"]["inv"] else ["--column"]))
                     jobs.append({"args": base + a + pa + [files["lf"][0]]})
@@ -178,11 +192,18 @@ def line_part(chk, tier):
                 meta.append((i, v))
         outs = rgrun.run_many(jobs)
         chk.evaluations += len(jobs)
+        lines_all = lines
         for (i, v), (rc, so, se), j in zip(meta, outs, jobs):
             r = recs[i]
+            lines = lines_all
             f, offs, term = files["crlf" if (r["o"]["crlf"] and not v.endswith("_lf")) else "lf"]
             if v.endswith("_lf"):
                 v = v[:-3]
+            if v.endswith("_cr"):
+                v = v[:-3]
+                r = dict(r, lines=r["crlines"])
+                lines = lines_cr
+                f, offs, term = files["cr"]
             why = None
             strip = (lambda x: x[:-1] if term == b"\r\n" and x.endswith(b"\r") else x)
             if rc not in (0, 1):
